@@ -1236,9 +1236,33 @@ def fixed_sync_read():
     return out
 
 
+def layout_grid(thorough):
+    """nidq channel layouts over the MN+MA / XA grid, every XA channel carrying its own TTL train (pulses
+    at different samples, different baselines): analog line k must be the k-th XA channel in on-disk
+    order, also when the XA indices straddle a multiple of 8."""
+    out = []
+    sums = range(0, 18) if thorough else (5, 6, 7, 13, 14, 15, 23)
+    for S in sums:
+        for xa in ((0, 1, 2, 3, 4) if thorough else (2, 3, 4)):
+            mn = S // 2
+            counts = [mn, S - mn, xa, 1]
+            nc, ns, rmax = sum(counts), 14, 5
+            hi = int(round(3.3 / (rmax / 32768.0)))
+            data = []
+            for t in range(ns):
+                row = [((t + 1) * (c + 3) * 37) % 4001 - 2000 for c in range(S)]
+                row += [(10 * k + hi) if t in (2 + k, 8 + k) else 10 * k for k in range(xa)]
+                row += [(t * 2657 + S) % 65536 - 32768]
+                data += row
+            out.append({"kind": "sync_read", "typ": "nidq", "counts": counts, "ns": ns, "nc": nc, "range_max": rmax,
+                        "data": data, "slice": None, "threshold": None, "floor": "default",
+                        "gains": [200, 10], "call_order": S % 3})
+    return out
+
+
 def gen_sync_read(ctx):
     rng = ctx.rng
-    cases = fixed_sync_read()
+    cases = fixed_sync_read() + layout_grid(ctx.thorough())
     n = 3000 if ctx.thorough() else 170
     for j in range(n):
         ns = rng.choice([1, 2, 11, 21, 31, 40, 50, 64])
@@ -1247,7 +1271,8 @@ def gen_sync_read(ctx):
         thr = rng.choice([None, None, None, 1.2, 1.0, 0.5, 1.25, 2.0, 0.75])
         if u < 0.72:
             typ = "nidq"
-            counts = [rng.choice([0, 0, 1, 2]), rng.choice([0, 0, 1, 3]), rng.choice([0, 1, 1, 2, 3]), 1]
+            counts = [rng.choice([0, 0, 1, 2, 4, 6, 8]), rng.choice([0, 0, 1, 3, 5, 7]),
+                      rng.choice([0, 1, 1, 2, 3, 4]), 1]
         elif u < 0.82:       # malformed / unusual layouts
             typ = "nidq"
             counts = [rng.choice([0, 1]), rng.choice([0, 1]), rng.choice([0, 1, 2]), rng.choice([0, 2, 2, 3])]
